@@ -68,6 +68,10 @@ func zzPoolQuery(i int, step string) string {
 		return "{ i(v:1) o{ynn} }" // ynn fails in zzC06World: error locations must be this request's
 	case 25:
 		return "{ i(v:100) o{ynn} }"
+	case 26:
+		return "query A{ a } query B{ b }" // the text of entry 20, requested with operation B
+	case 27:
+		return "query A{ a } query B{ b }" // ... and with an operation name the document lacks
 	}
 	return "{ a }"
 }
@@ -76,6 +80,12 @@ func zzPoolQuery(i int, step string) string {
 func zzPoolOp(i int) string {
 	if i >= 20 && i <= 23 {
 		return "A"
+	}
+	if i == 26 {
+		return "B"
+	}
+	if i == 27 {
+		return "C"
 	}
 	return ""
 }
@@ -90,7 +100,7 @@ func zzNameString(name string, n int) string {
 	return s
 }
 
-const zzPoolSize = 26
+const zzPoolSize = 28
 
 func zzSameResultNoLoc(a, b *Result) bool {
 	if len(a.Errors) != len(b.Errors) || (a.Data == nil) != (b.Data == nil) {
@@ -155,7 +165,7 @@ func zzC06Step(c *PlanCache, schema *Schema, maxEntries int, normalize bool, qi 
 	}
 }
 
-var zzC06Concrete = []int{2, 3, 4, 5, 7, 8, 9, 10, 11, 13, 14, 15, 16, 17, 18, 19, 20, 21, 22, 23, 24, 25}
+var zzC06Concrete = []int{2, 3, 4, 5, 7, 8, 9, 10, 11, 13, 14, 15, 16, 17, 18, 19, 20, 21, 22, 23, 24, 25, 26, 27}
 
 // ZZ_C06_pairs: histories q0, q1, [Reset], q0 over the literal-free pool, every
 // cache size 1..2, Normalize on and off, nil cache.
